@@ -339,4 +339,7 @@ def obligations(tier):
     vs = [(1, 1, 0, 0, False), (0, 0, 1, 1, False), (0, 0, 0, 0, True), (0, 0, 2, 0, False)]
     if tier == "thorough":
         vs += [(1, 1, 1, 1, False), (0, 1, 1, 2, False), (1, 0, 0, 2, True), (0, 0, 2, 2, False)]
-    return [make_config(v) for v in vs] + [make_nonnumeric()]
+    # a slice of the running clause ("every combination of valid option values runs to completion without raising"): the training step
+    # under every partition of the pool (C14's harness; reports a known finding)
+    from vf.props.c14 import make_completes
+    return [make_config(v) for v in vs] + [make_nonnumeric(), make_completes(1, 4, 2)]
